@@ -1,6 +1,6 @@
 import WcModel.Properties.C01
-#print axioms WcModel.C01.C01_partial
 #print axioms WcModel.C01.wrap_fullmatch
+#print axioms WcModel.C01.C01_partial
 #print axioms WcModel.C01.oracle_is_spec
 #print axioms WcModel.C01.matcher_is_semantics
 #print axioms WcModel.C01.posix_tables
